@@ -137,7 +137,7 @@ let show_devs (evs : DenM.dev list) : string =
       | DenM.DSoft WordsM.SErr -> "E"
       | DenM.DSoft WordsM.SWarn -> "W") evs)
 
-let run ?(spec = false) ?(scope = false) ?(simp = false) () =
+let run ?(spec = false) ?(scope = false) ?(simp = false) ?(quiet = false) () =
   let hdr = List.map int_of_string (List.filter (fun s -> s <> "") (String.split_on_char ' ' (input_line stdin))) in
   match hdr with
   | [a; b; c; d; ra; rb; rs; fuel; limit] ->
@@ -179,6 +179,13 @@ let run ?(spec = false) ?(scope = false) ?(simp = false) () =
                  | DenM.DStuck -> "STUCK "
                  | DenM.DOk (evs, false) -> "DONE " ^ show_devs evs
                  | DenM.DOk (evs, true) -> "ABORT " ^ show_devs evs)
+              else
+              if quiet then
+                (match BuildM.build_program tc t with
+                 | BuildM.BErr _ -> "BUILDERR x"
+                 | BuildM.BOk (m, blks) ->
+                   if QuietM.has_format m || List.exists QuietM.has_format blks then "OK"   (* outside the theorem *)
+                   else if QuietM.quietb m && List.for_all QuietM.quietb blks then "EQ" else "NE")
               else
               match BuildM.build_program tc t with
               | BuildM.BErr BuildM.BUnbound -> "BUILDERR unbound"
